@@ -293,8 +293,9 @@ func c13Observe(env *c13Env) (c13Fingerprint, error) {
 }
 
 func TestVerifC13Malformed(t *testing.T) {
-	r := verifkit.Start(t, "C13", "malformed")
-	defer r.Finish()
+	kr := verifkit.Start(t, "C13", "malformed")
+	defer kr.Finish()
+	r := &c13Run{Run: kr}
 	r.SetRule("Each case builds a PRNG base state (real slot FSM over the real meta DB), then applies ~36 commands that must be refused — unowned hash slots (envelope, per-item hash slot of the five multi-hash-slot command types, wrong slot id, delta/envelope mismatch) and damaged payloads (13 damage classes over samples of every command family) — alone and inside a batch between two valid commands, each followed by a valid batch. An evaluation is one ApplyBatch call. Non-trivial = a refused command whose batch variant was also exercised; distinct by (damage class or unowned kind, command type, refused/decoded).")
 	r.Assume("Hash-slot migration maintenance commands (ApplyDelta, EnterFence, Ack, Cleanup) are accepted for hash slots the slot does not own by design (resolveHashSlot: incoming delta before ownership, delayed fence after ownership moved) and are therefore not used as 'must refuse' inputs.")
 
